@@ -905,37 +905,6 @@ fn main() {
                 rep.engine("m_big_pool").sample(Json::from("pools of 255 ... 70000 slots: exactly max_size objects can be out at once, twice in a row, with max_size creations in all"));
                 rep.add_findings(fs);
             }
-            // take() runs Manager::detach (user code) after it has let the object go: a detach that panics
-            // must cost neither the slot nor a waiting caller
-            if matches!(prop, "C02" | "C09") && args.engine_enabled("m_detach_panic") {
-                let mut fs = Vec::new();
-                let mut cell = 0u64;
-                for max in 1..=4usize {
-                    for k in 1..=max {
-                        for waiter in [false, true] {
-                            for lifo in [false, true] {
-                                cell += 1;
-                                let _case = vh_common::CaseGuard::new(format!("m_detach_panic max={} k={} waiter={} lifo={}", max, k, waiter, lifo));
-                                let cov = rep.engine("m_detach_panic");
-                                cov.evaluations += 1;
-                                cov.events += (2 * max + 2 * k + 2) as u64;
-                                let _ = cov.distinct.insert(cell);
-                                let _ = cov.nontrivial.insert(cell);
-                                let vs = th::race::take_with_panicking_detach(prop, max, k, waiter, lifo);
-                                if !vs.is_empty() {
-                                    cov.bump("violating_cases");
-                                }
-                                for v in vs.into_iter().take(1) {
-                                    fs.push(Finding { sig: format!("{}/m_detach_panic/{}", prop, v.oracle), replay: Json::obj().with("engine", "m_detach_panic").with("max_size", max as u64).with("taken", k as u64).with("waiter", waiter).with("lifo", lifo).with("message", v.msg.as_str()), v });
-                                }
-                            }
-                        }
-                    }
-                }
-                rep.engine("m_detach_panic").sample(Json::from("pools of 1..4 slots, all objects out, 1..max of them taken while Manager::detach panics, with and without a waiting caller: afterwards the waiter is served and exactly max_size objects can be out again"));
-                fs.truncate(4);
-                rep.add_findings(fs);
-            }
             // lazy creation against lock contention: full-speed rounds only (no schedule point can sit between
             // a failed try_lock and the decision to create)
             if prop == "C08" && args.engine_enabled("th_race") {
